@@ -137,6 +137,9 @@ impl Ctx {
     pub fn span_made(&self, sp: &tracing::Span) {
         self.notes.borrow_mut().push(json!({"span_disabled": sp.is_disabled()}));
         sp.in_scope(|| ());
+        // the owned-guard path: entered() ... exit() hands the span back
+        let back = sp.clone().entered().exit();
+        drop(back);
     }
     pub fn enabled_result(&self, r: bool) {
         self.notes.borrow_mut().push(json!({"enabled_result": r}));
